@@ -556,6 +556,12 @@ func runRaceChild(name string, args ...string) (int, string, error) {
 	}
 	n := 0
 	var relevant []string
+	for _, l := range strings.Split(string(out), "\n") {
+		if strings.HasPrefix(l, "PROBLEM:") {
+			n++
+			relevant = append(relevant, l)
+		}
+	}
 	for _, blk := range strings.Split(logs, "==================") {
 		if !strings.Contains(blk, "WARNING: DATA RACE") {
 			continue
